@@ -198,6 +198,48 @@ def after_complete_step(p0: int, p1: int, p2: int, t: int, inside: bool, n_adv: 
     return hx.end(True)
 
 
+def two_later_requests(p0: int, p1: int, t: int, r0: int, r1: int, inside: bool) -> bool:
+    """
+    pre: p0 >= p1
+    pre: 0 <= r0 < 6 and 0 <= r1 < 6
+    post: _
+    """
+    # bounded cross-check of the inductive step: TWO later requests in a row on a completed model
+    hx.begin()
+    m = LogModel()
+    q = _prestate(m, 2, [p0, p1], t)
+    m.systems.timestep = t
+    if inside:
+        q[1].completes = True
+        m.execute(2)
+    else:
+        m.complete()
+    t_after = m.systems.timestep
+    del m.log[:]
+    for r in (r0, r1):
+        try:
+            if r == 0:
+                m.execute()
+            elif r == 1:
+                m.execute(3)
+            elif r == 2:
+                m.systems.execute_systems()
+            elif r == 3:
+                m.systems.execute_systems(True)
+                return hx.end(hx.fail("strict request did not raise"))
+            elif r == 4:
+                m.systems.add_system(S("late%d" % len(m.systems.systems), m, p0 + 1))
+            else:
+                m.complete()
+        except ModelCompleteError:
+            if r != 3:
+                return hx.end(hx.fail("non-strict request raised"))
+        if m.log != [] or m.systems.timestep != t_after or m.is_running() or bool(m):
+            return hx.end(hx.fail("state changed by a request after completion", request=r, log=m.log))
+    hx.reach('done')
+    return hx.end(True)
+
+
 class BM(Model):
     __slots__ = ['log', 'c']
 
@@ -279,11 +321,12 @@ def obligations(tier):
         X("complete_during_multistep", complete_during_multistep,
           parts=[{"n": n, "k": k} for n, k in (((1, 2), (2, 3), (3, 2)) if tier == "quick" else ((1, 2), (2, 3), (3, 2), (3, 4), (2, 5)))],
           labels=("steps_skipped",), timeout=600, encoded=enc, bounds={"n": "1..3", "k": "2..%d" % (3 if tier == "quick" else 5)}),
-        X("after_complete_step", after_complete_step, parts=[{"n": n, "req": r} for n in (0, 2, 3) for r in reqs],
+        X("after_complete_step", after_complete_step, parts=[{"n": n, "req": r} for n in ((0, 2, 3) if tier == "quick" else (0, 1, 2, 3)) for r in reqs],
           labels=("completed_inside", "completed_outside"),
           labels_for=lambda p: ("completed_inside", "completed_outside") if p["n"] else ("completed_outside",),
           timeout=300, group=3, encoded=enc + (SystemManager.add_system, SystemManager.remove_system),
           bounds={"n": "0,2,3", "requests": ",".join(reqs)}),
+        X("two_later_requests", two_later_requests, labels=("done",), timeout=600, encoded=enc),
         X("batch_stops", batch_stops, parts=[{"which": w, "N": N} for w in ("batch", "search")],
           labels=("completed_first", "limit_first"), timeout=600,
           encoded=(B._run_model_for_batch, B._run_model_for_search), bounds={"completion time, step limit": "0..%d" % N}),
